@@ -95,7 +95,9 @@ def special_vector(rng, ver, L):
     saturated scores, negative v2 adjusted base, everything Not Defined"""
     if ver == 3:
         b = ["AV:N/AC:L/PR:L/UI:N/S:U/C:H/I:H/A:H", "AV:N/AC:L/PR:N/UI:N/S:C/C:H/I:H/A:H", "AV:P/AC:H/PR:H/UI:R/S:C/C:N/I:N/A:N",
-             "AV:L/AC:L/PR:H/UI:N/S:C/C:L/I:N/A:N"]
+             "AV:L/AC:L/PR:H/UI:N/S:C/C:L/I:N/A:N",
+             # changed scope, high impact: v3.0 and v3.1 give different environmental scores for the same metric values
+             "AV:N/AC:L/PR:N/UI:R/S:C/C:H/I:H/A:H", "AV:L/AC:H/PR:H/UI:R/S:C/C:H/I:H/A:H", "AV:P/AC:H/PR:L/UI:N/S:C/C:H/I:H/A:L"]
         e = ["", "/MS:C/MC:N/MI:N/MA:N", "/MS:U/MC:N/MI:N/MA:N", "/MS:C", "/MS:U/MPR:H", "/CR:H/IR:H/AR:H/MC:H/MI:H/MA:H",
              "/MAV:X/MAC:X/MPR:X/MUI:X/MS:X/MC:X/MI:X/MA:X/CR:X/IR:X/AR:X", "/MC:N/MI:N/MA:N/MS:X"]
         t = ["", "/E:U/RL:O/RC:U", "/E:X/RL:X/RC:X", "/E:H/RL:U/RC:C"]
